@@ -577,6 +577,12 @@ static int32 pkcs12import(psPool_t *pool, const unsigned char **buf,
      */
     if ((uint32) (end - p) < 1)
     {
+        if (decryptKey)
+        {
+            memset_s(decryptKey, keyLen, 0x0, keyLen);
+            psFree(decryptKey, pool);
+        }
+        psFree(iv, pool);
         return PS_PARSE_FAIL;
     }
     if (*p == (ASN_CONTEXT_SPECIFIC | ASN_PRIMITIVE))
@@ -647,6 +653,12 @@ static int32 pkcs12import(psPool_t *pool, const unsigned char **buf,
 
     if (tmplen < 1 || (uint32) (end - p) < tmplen)
     {
+        if (decryptKey)
+        {
+            memset_s(decryptKey, keyLen, 0x0, keyLen);
+            psFree(decryptKey, pool);
+        }
+        psFree(iv, pool);
         return PS_PARSE_FAIL;
     }
 
